@@ -54,7 +54,7 @@ class RunModels(Models):
         ins(r"format|std::fmt::format|alloc::fmt::format", lambda c, m, a: StringBuf([SInt(ord("~"), "char")]))
         ins(r"core::fmt::rt::Argument::new_(?:display|debug)::<.*>", opaque("FmtArg"))
         ins(r"Arguments::new::<\d+, \d+>|Arguments::from_str", opaque("Arguments"))
-        ins(r"std::io::_print", unit)
+        ins(r"std::io::_print|std::io::_eprint", unit)
         ins(r"colors_enabled|console::colors_enabled", lambda c, m, a: SBool(False))
         ins(r"std::path::Path::display|Path::display", opaque("Display"))
         ins(r"<std::path::Display as ToString>::to_string|<Display as ToString>::to_string", lambda c, m, a: StringBuf([SInt(ord("p"), "char")]))
@@ -330,6 +330,14 @@ def title_of(tc):
 
 
 def post(ctx, args, kind, value):
+    if kind == "panic":
+        # `std::process::exit(n)` ends the process with status n: as good as returning the error main maps to n
+        mo = re.search(r"std::process::exit\(SInt\((\d+):", str(value))
+        if not mo:
+            return False
+        docs = ctx.notes["docs"]
+        hard = [d for d in docs if d.kind in ("hard-error", "aborted")]
+        return bool(hard) and int(mo.group(1)) == 1 and len(ctx.notes.get("executed_titles", [])) == hard[0].d + 1
     if kind != "return":
         return False
     docs = ctx.notes["docs"]
